@@ -47,9 +47,10 @@ def run(ck: Check):
         raise Machinery("role-A negative lemma: goal pruning without the monotonicity premise must lose an optimum")
     ck.extra["role_A"] = ("TilePrune: pruning partial assignments by a goal is sound for objectives monotone in the pruned "
                           "symbol (TLC, all small tables); without monotonicity TLC finds a lost optimum")
-    nworlds = 5 if not thorough else 12
+    # every metric set in both tiers: which objectives steer the pruning depends on the metric set
+    nworlds = 3 if not thorough else 12
     cases, meta = [], {}
-    for mi, mset in enumerate(MSETS if thorough else [MSETS[(ck.seed + j) % 4] for j in (0, 3)]):
+    for mi, mset in enumerate(MSETS):
         worlds = c07.worlds_for(ck, nworlds, 100 + 20 * mi)
         if mi % 2:
             for w in worlds:
